@@ -118,7 +118,9 @@ int main(int argc,char**argv){
       catch(std::runtime_error& e){ out="runtime"; msg=clean(e.what()); }
       catch(std::exception& e){ out="exc"; msg=clean(e.what()); }
       catch(...){ out="unknown"; }
-      same=(dump(table)==before);
+      // after an exception from the middle of fit() the members may be half assigned: do not walk them
+      if(out=="badalloc"||out=="exc"||out=="unknown") same=false;
+      else same=(dump(table)==before);
     }else{
       struct splinetable tab; tab.data=NULL;
       struct splinetable* tp=&tab;
